@@ -284,12 +284,31 @@ def noSecondAssign (inp : Input) (ob : Obs) : Bool :=
         C04.isFirstAssign inp h ||
         inp.probes.zipIdx.any fun (q, j) => j != d && inSync q && (reported q).has h
 
+/-- hashes (with state) a shard is told to hold in normal state after the cycle -/
+def normalAfter (p : Probe) (rs : List Req) : List Hash :=
+  match postedBody rs with
+  | some b => (b.filter fun (_, st, _) => st == .normal).map (·.1)
+  | none => ((reported p).filter fun (_, st) => st.state == .normal).map (·.1)
+
+/-- never chosen as destination: whenever an in-sync shard is told to turn a normal copy into an
+    in-transfer one, the normal copy that replaces it is with another *in-sync* shard -/
+def dstInSync (inp : Input) (ob : Obs) : Bool :=
+  let sh := shardsOf inp ob
+  sh.all fun (q, p, r) =>
+    !inSync p ||
+    match postedBody r with
+    | none => true
+    | some b => b.all fun (h, st, _) =>
+        !(st == .inTransfer && (match (reported p).get h with | some v => v.state == .normal | none => false)) ||
+        sh.any fun (d, pd, rd) => d != q && inSync pd && (normalAfter pd rd).contains h
+
 def ok (inp : Input) (ob : Obs) : Bool :=
-  leftAlone inp ob && noNeedlessPush inp ob && noUpdates inp ob && noSecondAssign inp ob
+  leftAlone inp ob && noNeedlessPush inp ob && noUpdates inp ob && noSecondAssign inp ob && dstInSync inp ob
 
 def clause (inp : Input) (ob : Obs) : String :=
   if !leftAlone inp ob then "leftAlone" else if !noNeedlessPush inp ob then "noNeedlessPush" else
-  if !noUpdates inp ob then "noUpdates" else if !noSecondAssign inp ob then "noSecondAssign" else ""
+  if !noUpdates inp ob then "noUpdates" else if !noSecondAssign inp ob then "noSecondAssign" else
+  if !dstInSync inp ob then "dstInSync" else ""
 
 end C08
 
